@@ -123,4 +123,11 @@ validate_fastq = Contract("C15.FastQBuffer._validate", target=lambda: _fq()._val
                           canaries=[("plus line offset", "line_number = 2 + entry_number * n_lines_per_entry", "line_number = 3 + entry_number * n_lines_per_entry"),
                                     ("wrong line checked", "if np.any(data[new_lines[1::n_lines_per_entry] + 1] != \"+\"):", "if np.any(data[new_lines[2::n_lines_per_entry] + 1] != \"+\"):")])
 
-CONTRACTS = [validate_fasta, validate_fastq_header, validate_fastq]
+# the single-offset rule: NumpyFileReader.read_chunk adds the chunk's base line (lines delivered in earlier chunks) exactly once to
+# a format error raised by the buffer - the read_chunk contract of C01 (contracts/c01.py), clause `raises.FormatException`,
+# re-run here under C15's name for the seek and the gzip-carry mode
+from contracts import c01 as _c01
+read_chunk_seek = _c01._mk(False, False, prefix="C15")
+read_chunk_carry = _c01._mk(True, False, prefix="C15")
+
+CONTRACTS = [validate_fasta, validate_fastq_header, validate_fastq, read_chunk_seek, read_chunk_carry]
